@@ -80,6 +80,7 @@ type lexState struct {
 	byteVar map[types.Object]bool         // locals that alias the current byte
 	runeVar map[types.Object]bool         // locals that alias the current rune
 	sizeVar map[types.Object]bool         // locals that hold the encoded width of the current rune (second result of the decoder)
+	valSet  map[types.Object]bset         // locals assigned the current byte: the bytes they may hold (stays valid after advancing)
 	valueOf map[types.Object]types.Object // value := input[start:pos]  ->  start
 	// facts about the token being scanned (reset when Next is entered)
 	sig        bool // a byte other than a blank may have been consumed
@@ -94,6 +95,38 @@ type lexState struct {
 	epoch      []types.Object                         // snapshots taken since the last advance (all at the current position)
 }
 
+// aliasVar: inside a callee, parameter p stands for the caller's variable a (a snapshot, or an alias of the
+// current byte / rune / its width).
+func (s *lexState) aliasVar(p, a types.Object) {
+	if sn, ok := s.snaps[a]; ok {
+		s.snaps[p] = sn
+		s.since[p] = s.since[a]
+		s.sigAt[p] = s.sigAt[a]
+		s.lead[p] = s.lead[a]
+		if s.posSnap[a] {
+			s.posSnap[p] = true
+		}
+		na := map[types.Object]bool{a: true}
+		for q := range s.notAfter[a] {
+			na[q] = true
+		}
+		s.notAfter[p] = na
+		if s.notAfter[a] == nil {
+			s.notAfter[a] = map[types.Object]bool{}
+		}
+		s.notAfter[a][p] = true
+	}
+	if s.byteVar[a] {
+		s.byteVar[p] = true
+	}
+	if s.runeVar[a] {
+		s.runeVar[p] = true
+	}
+	if s.sizeVar[a] {
+		s.sizeVar[p] = true
+	}
+}
+
 // markSince records pos > snapshot(o); the same then holds for every snapshot taken at a position <= o's.
 func (s *lexState) markSince(o types.Object) {
 	s.since[o] = true
@@ -105,12 +138,12 @@ func (s *lexState) markSince(o types.Object) {
 }
 
 func newLexState() *lexState {
-	return &lexState{B: fullSet(), since: map[types.Object]bool{}, snaps: map[types.Object]snapState{}, byteVar: map[types.Object]bool{}, runeVar: map[types.Object]bool{}, sizeVar: map[types.Object]bool{}, valueOf: map[types.Object]types.Object{},
+	return &lexState{B: fullSet(), since: map[types.Object]bool{}, snaps: map[types.Object]snapState{}, byteVar: map[types.Object]bool{}, runeVar: map[types.Object]bool{}, sizeVar: map[types.Object]bool{}, valSet: map[types.Object]bset{}, valueOf: map[types.Object]types.Object{},
 		posSnap: map[types.Object]bool{}, sigAt: map[types.Object]bool{}, lead: map[types.Object]bool{}, notAfter: map[types.Object]map[types.Object]bool{}}
 }
 
 func (s *lexState) clone() *lexState {
-	n := &lexState{ne: s.ne, atEOF: s.atEOF, B: s.B, adv: s.adv, since: map[types.Object]bool{}, snaps: map[types.Object]snapState{}, byteVar: map[types.Object]bool{}, runeVar: map[types.Object]bool{}, sizeVar: map[types.Object]bool{}, valueOf: map[types.Object]types.Object{},
+	n := &lexState{ne: s.ne, atEOF: s.atEOF, B: s.B, adv: s.adv, since: map[types.Object]bool{}, snaps: map[types.Object]snapState{}, byteVar: map[types.Object]bool{}, runeVar: map[types.Object]bool{}, sizeVar: map[types.Object]bool{}, valSet: map[types.Object]bset{}, valueOf: map[types.Object]types.Object{},
 		sig: s.sig, nl: s.nl, nlUnknown: s.nlUnknown, sawNL: s.sawNL, atStartSet: s.atStartSet, posSnap: map[types.Object]bool{}, sigAt: map[types.Object]bool{}, lead: map[types.Object]bool{},
 		notAfter: map[types.Object]map[types.Object]bool{}, epoch: append([]types.Object(nil), s.epoch...)}
 	for k, v := range s.notAfter {
@@ -143,6 +176,9 @@ func (s *lexState) clone() *lexState {
 	}
 	for k, v := range s.sizeVar {
 		n.sizeVar[k] = v
+	}
+	for k, v := range s.valSet {
+		n.valSet[k] = v
 	}
 	for k, v := range s.valueOf {
 		n.valueOf[k] = v
@@ -228,6 +264,13 @@ func joinStates(a, b *lexState) *lexState {
 			delete(n.sizeVar, k)
 		}
 	}
+	for k, v := range n.valSet {
+		if bv, ok := b.valSet[k]; ok {
+			n.valSet[k] = v.or(bv)
+		} else {
+			delete(n.valSet, k)
+		}
+	}
 	for k, v := range n.valueOf {
 		if b.valueOf[k] != v {
 			delete(n.valueOf, k)
@@ -308,6 +351,7 @@ type lexInterp struct {
 	peekByte    map[string]bool   // pure parameterless methods returning the current byte
 	peekRune    map[string]bool   // ... the current rune
 	positionFns map[string]bool   // ... a Position built from the lexer's counters
+	curFrame    *lexFrame         // frame of the condition being evaluated (for function-valued parameters)
 	only        map[string]bool   // rules whose obligations are recorded (nil = all)
 	dropKinds   map[string]bool   // token kinds whose value starts after consumed input (leading delimiter)
 	nTok        int
@@ -316,6 +360,60 @@ type lexInterp struct {
 type lexFrame struct {
 	fd   *ast.FuncDecl
 	rets []*lexState // states at (non-token) returns
+	// what the caller passed for parameters that are functions or constants (higher-order scanners such as
+	// advanceWhile(pred), scanEnclosed(typ, closer))
+	parent   *lexFrame
+	funcArgs map[types.Object]ast.Expr
+	consts   map[types.Object]int64
+}
+
+// funcVal: a predicate given as a function value: a declared function / method, or a function literal together
+// with the frame it was written in (for the constants it captures).
+type funcVal struct {
+	typ  *ast.FuncType
+	body *ast.BlockStmt
+	fr   *lexFrame
+}
+
+func (fr *lexFrame) constOf(o types.Object) (int64, bool) {
+	for f := fr; f != nil; f = f.parent {
+		if v, ok := f.consts[o]; ok {
+			return v, true
+		}
+	}
+	return 0, false
+}
+
+// resolveFuncValue: e denotes a function value (literal, declared function, method value, or a function-typed
+// parameter bound by a caller).
+func (li *lexInterp) resolveFuncValue(e ast.Expr, fr *lexFrame, depth int) *funcVal {
+	if depth > 4 {
+		return nil
+	}
+	switch x := ast.Unparen(e).(type) {
+	case *ast.FuncLit:
+		return &funcVal{x.Type, x.Body, fr}
+	case *ast.Ident:
+		switch o := li.info.Uses[x].(type) {
+		case *types.Func:
+			if fd := li.funcs[o]; fd != nil {
+				return &funcVal{fd.Type, fd.Body, nil}
+			}
+		case *types.Var:
+			for f := fr; f != nil; f = f.parent {
+				if a, ok := f.funcArgs[o]; ok {
+					return li.resolveFuncValue(a, f.parent, depth+1)
+				}
+			}
+		}
+	case *ast.SelectorExpr:
+		if o, ok := li.info.Uses[x.Sel].(*types.Func); ok {
+			if fd := li.funcs[o]; fd != nil {
+				return &funcVal{fd.Type, fd.Body, nil}
+			}
+		}
+	}
+	return nil
 }
 
 type lexFlow struct {
@@ -617,12 +715,16 @@ func constInt(info *types.Info, e ast.Expr) (int64, bool) {
 // evalPred evaluates a bool-returning module function on one abstract argument: a concrete value 0..255
 // (byte or ASCII rune) or HIGH (-1: some rune >= 0x80).
 func (li *lexInterp) evalPred(fd *ast.FuncDecl, arg int, depth int) tri {
-	if depth > 4 || fd.Type.Params == nil {
+	return li.evalPredFV(&funcVal{fd.Type, fd.Body, nil}, arg, depth)
+}
+
+func (li *lexInterp) evalPredFV(fv *funcVal, arg int, depth int) tri {
+	if depth > 4 || fv == nil || fv.typ.Params == nil || fv.body == nil {
 		return triUnknown
 	}
 	var param types.Object
 	n := 0
-	for _, f := range fd.Type.Params.List {
+	for _, f := range fv.typ.Params.List {
 		for _, nm := range f.Names {
 			param = li.info.Defs[nm]
 			n++
@@ -676,10 +778,19 @@ func (li *lexInterp) evalPred(fd *ast.FuncDecl, arg int, depth int) tri {
 				var cv int64
 				var okc bool
 				op := x.Op
+				constOf := func(e ast.Expr) (int64, bool) {
+					if v, ok := constInt(li.info, e); ok {
+						return v, true
+					}
+					if o := li.info.Uses[identOf(e)]; o != nil {
+						return fv.fr.constOf(o)
+					}
+					return 0, false
+				}
 				if id, ok := ast.Unparen(x.X).(*ast.Ident); ok && li.info.Uses[id] == param {
-					cv, okc = constInt(li.info, x.Y)
+					cv, okc = constOf(x.Y)
 				} else if id, ok := ast.Unparen(x.Y).(*ast.Ident); ok && li.info.Uses[id] == param {
-					cv, okc = constInt(li.info, x.X)
+					cv, okc = constOf(x.X)
 					switch op { // mirror
 					case token.LSS:
 						op = token.GTR
@@ -810,7 +921,7 @@ func (li *lexInterp) evalPred(fd *ast.FuncDecl, arg int, depth int) tri {
 		}
 		return triUnknown, false
 	}
-	r, _ := run(fd.Body.List)
+	r, _ := run(fv.body.List)
 	return r
 }
 
@@ -848,6 +959,11 @@ func (li *lexInterp) predOn(call *ast.CallExpr, arg int, depth int) tri {
 	if fn, ok := o.(*types.Func); ok {
 		if fd := li.funcs[fn]; fd != nil {
 			return li.evalPred(fd, arg, depth)
+		}
+	}
+	if _, isVar := o.(*types.Var); isVar {
+		if fv := li.resolveFuncValue(call.Fun, li.curFrame, 0); fv != nil {
+			return li.evalPredFV(fv, arg, depth)
 		}
 	}
 	return triUnknown
@@ -1059,7 +1175,42 @@ func (li *lexInterp) compare(x *ast.BinaryExpr, in []*lexState, fr *lexFrame) (t
 		break
 	}
 	if cur != nil {
-		if cv, ok := constInt(li.info, cst); ok {
+		// compared with a variable that was assigned the current byte earlier: equality confines the byte to
+		// the values that variable may hold
+		if o := li.info.Uses[identOf(cst)]; o != nil && (op == token.EQL || op == token.NEQ) {
+			if _, isConst := constInt(li.info, cst); !isConst {
+				if _, isFrameConst := fr.constOf(o); !isFrameConst {
+					known := false
+					for _, s := range in {
+						if _, ok := s.valSet[o]; ok {
+							known = true
+						}
+					}
+					if known {
+						for _, s := range in {
+							vs, ok := s.valSet[o]
+							if !ok {
+								vs = fullSet()
+							}
+							eq, ne := li.refine(s, vs, !vs.has(0)), s.clone()
+							if op == token.EQL {
+								t, f = append(t, eq), append(f, ne)
+							} else {
+								t, f = append(t, ne), append(f, eq)
+							}
+						}
+						return normalize(t), normalize(f)
+					}
+				}
+			}
+		}
+		cv, ok := constInt(li.info, cst)
+		if !ok {
+			if o := li.info.Uses[identOf(cst)]; o != nil {
+				cv, ok = fr.constOf(o)
+			}
+		}
+		if ok {
 			var tset bset
 			for b := 0; b < 256; b++ {
 				// bytes >= 0x80 under a rune comparison with an ASCII constant: the rune is >= 0x80
@@ -1157,6 +1308,7 @@ func (li *lexInterp) refine(s *lexState, set bset, impliesNonEOF bool) *lexState
 }
 
 func (li *lexInterp) condCall(call *ast.CallExpr, in []*lexState, fr *lexFrame) (t, f []*lexState) {
+	li.curFrame = fr
 	o := calleeOf(li.info, call)
 	// predicate on the current byte / rune
 	if len(call.Args) == 1 && len(in) > 0 {
@@ -1581,6 +1733,7 @@ func (li *lexInterp) assign(s *ast.AssignStmt, in []*lexState, fr *lexFrame) []*
 					delete(st.byteVar, o)
 					delete(st.runeVar, o)
 					delete(st.sizeVar, o)
+					delete(st.valSet, o)
 					delete(st.valueOf, o)
 					delete(st.snaps, o)
 					delete(st.since, o)
@@ -1639,6 +1792,11 @@ func (li *lexInterp) assign(s *ast.AssignStmt, in []*lexState, fr *lexFrame) []*
 			if o := obj(0); o != nil {
 				for _, st := range out {
 					st.byteVar[o] = true
+					if st.ne {
+						st.valSet[o] = st.B
+					} else {
+						delete(st.valSet, o)
+					}
 				}
 			}
 		case len(s.Lhs) == 1 && li.isCurrentRuneExpr(rhs, in0(in)):
@@ -1686,6 +1844,18 @@ func (li *lexInterp) assign(s *ast.AssignStmt, in []*lexState, fr *lexFrame) []*
 								if _, isSnap := st.snaps[so]; isSnap {
 									st.valueOf[o] = so
 								}
+							}
+						}
+					}
+				}
+			}
+			// value := l.lexemeFrom(begin): a pure helper that returns input[<param>(.Offset) : pos]
+			if call, ok := rhs.(*ast.CallExpr); ok && len(s.Lhs) == 1 {
+				if so := li.sliceHelperStart(call); so != nil {
+					if o := obj(0); o != nil {
+						for _, st := range out {
+							if _, isSnap := st.snaps[so]; isSnap {
+								st.valueOf[o] = so
 							}
 						}
 					}
@@ -1747,7 +1917,11 @@ func (li *lexInterp) assignLexerField(lhs ast.Expr, rhs ast.Expr, tok token.Toke
 			}
 			return li.effectiveAdvance(n, in, fr)
 		case token.ASSIGN:
-			if id, ok := ast.Unparen(rhs).(*ast.Ident); ok {
+			src := ast.Unparen(rhs)
+			if se, ok := src.(*ast.SelectorExpr); ok && se.Sel.Name == "Offset" {
+				src = ast.Unparen(se.X) // the byte offset recorded in a Position snapshot
+			}
+			if id, ok := src.(*ast.Ident); ok {
 				if o := li.info.Uses[id]; o != nil {
 					var out []*lexState
 					for _, s := range in {
@@ -1762,6 +1936,11 @@ func (li *lexInterp) assignLexerField(lhs ast.Expr, rhs ast.Expr, tok token.Toke
 						n2.epoch = nil
 						// facts established after the snapshot are gone
 						n2.since[o] = false
+						for q := range n2.notAfter[o] {
+							if n2.notAfter[q][o] { // mutual: q denotes the same position as o
+								n2.since[q] = false
+							}
+						}
 						for k := range n2.snaps {
 							if k.Pos() > o.Pos() {
 								delete(n2.snaps, k)
@@ -1847,10 +2026,70 @@ func (li *lexInterp) inline(fd *ast.FuncDecl, in []*lexState, fr *lexFrame, at a
 		}
 	}
 	li.stack = append(li.stack, fd.Name.Name)
-	sub := &lexFrame{fd: fd}
+	sub := &lexFrame{fd: fd, parent: fr, funcArgs: map[types.Object]ast.Expr{}, consts: map[types.Object]int64{}}
+	if call, ok := at.(*ast.CallExpr); ok && fd.Type.Params != nil {
+		i := 0
+		for _, fl := range fd.Type.Params.List {
+			for _, nm := range fl.Names {
+				if i < len(call.Args) {
+					po := li.info.Defs[nm]
+					if _, isFn := po.Type().Underlying().(*types.Signature); isFn {
+						sub.funcArgs[po] = call.Args[i]
+					} else if v, ok := constInt(li.info, call.Args[i]); ok {
+						sub.consts[po] = v
+					} else if o := li.info.Uses[identOf(call.Args[i])]; o != nil {
+						if v, ok := fr.constOf(o); ok {
+							sub.consts[po] = v
+						}
+					}
+				}
+				i++
+			}
+		}
+	}
 	// locals of the callee are fresh; caller's aliases of the current byte stay valid only if pos is unchanged,
-	// which effectiveAdvance takes care of
-	fl := li.block(fd.Body.List, cloneAll(in), sub)
+	// which effectiveAdvance takes care of.  Parameters that are handed a snapshot / a current-byte alias of the
+	// caller stand for the same thing inside the callee.
+	start := cloneAll(in)
+	if call, ok := at.(*ast.CallExpr); ok && fd.Type.Params != nil && len(call.Args) == 1 {
+		// f(utf8.DecodeRuneInString(l.input[l.pos:])): the callee's (rune, size) parameters are the current rune and its width
+		if dc, ok := ast.Unparen(call.Args[0]).(*ast.CallExpr); ok && qualName(calleeOf(li.info, dc)) == "unicode/utf8.DecodeRuneInString" && len(dc.Args) == 1 {
+			if sl, ok := ast.Unparen(dc.Args[0]).(*ast.SliceExpr); ok && li.isLexerField(sl.X, "input") && sl.High == nil {
+				if k, isPos := li.posPlusConst(sl.Low); isPos && k == 0 {
+					var ps []types.Object
+					for _, fl := range fd.Type.Params.List {
+						for _, nm := range fl.Names {
+							ps = append(ps, li.info.Defs[nm])
+						}
+					}
+					if len(ps) == 2 {
+						for _, st := range start {
+							st.runeVar[ps[0]] = true
+							st.sizeVar[ps[1]] = true
+						}
+					}
+				}
+			}
+		}
+	}
+	if call, ok := at.(*ast.CallExpr); ok && fd.Type.Params != nil {
+		i := 0
+		for _, fl := range fd.Type.Params.List {
+			for _, nm := range fl.Names {
+				if i < len(call.Args) {
+					po := li.info.Defs[nm]
+					ao := li.info.Uses[identOf(call.Args[i])]
+					if po != nil && ao != nil {
+						for _, st := range start {
+							st.aliasVar(po, ao)
+						}
+					}
+				}
+				i++
+			}
+		}
+	}
+	fl := li.block(fd.Body.List, start, sub)
 	li.stack = li.stack[:len(li.stack)-1]
 	return normalize(append(fl.next, sub.rets...))
 }
@@ -1876,6 +2115,14 @@ func (li *lexInterp) ret(s *ast.ReturnStmt, in []*lexState, fr *lexFrame) {
 	}
 	r := ast.Unparen(s.Results[0])
 	if tp, ok := li.tokenParts(r, 0); ok {
+		if tp.kind == "" && tp.kindExpr != nil {
+			// Type: <parameter of the scanner>, bound to a constant by the caller
+			if o := li.info.Uses[identOf(tp.kindExpr)]; o != nil {
+				if v, ok := fr.constOf(o); ok {
+					tp.kind = li.tokenKindName(v)
+				}
+			}
+		}
 		li.checkReturn(s, in, fr, tp)
 		return
 	}
@@ -1893,6 +2140,7 @@ func (li *lexInterp) ret(s *ast.ReturnStmt, in []*lexState, fr *lexFrame) {
 
 // tokenPartsT: how a returned token is put together.
 type tokenPartsT struct {
+	kindExpr ast.Expr // the expression stored in Type when it is not (yet) a constant: a parameter of a constructor
 	kind   string   // name of the TokenType constant ("" = not a constant)
 	pos    ast.Expr // expression stored in Pos (nil: unknown)
 	posNow bool     // Pos is the lexer's position at the moment of construction
@@ -1917,6 +2165,8 @@ func (li *lexInterp) tokenParts(r ast.Expr, depth int) (tokenPartsT, bool) {
 			case "Type":
 				if k, ok := li.info.Uses[identOf(kv.Value)].(*types.Const); ok {
 					tp.kind = k.Name()
+				} else {
+					tp.kindExpr = kv.Value
 				}
 			case "Pos":
 				tp.pos = kv.Value
@@ -1982,24 +2232,22 @@ func (li *lexInterp) tokenParts(r ast.Expr, depth int) (tokenPartsT, bool) {
 			return nil, false
 		}
 		tp = inner
-		if inner.kind == "" {
-			// Type: <param>
-			lit, _ := ast.Unparen(ret.Results[0]).(*ast.CompositeLit)
-			if lit == nil {
-				lit = &ast.CompositeLit{}
-			}
-			for _, el := range lit.Elts {
-				if kv, ok := el.(*ast.KeyValueExpr); ok && identOf(kv.Key).Name == "Type" {
-					if a, ok := bind(kv.Value); ok {
-						if k, ok := li.info.Uses[identOf(a)].(*types.Const); ok {
-							tp.kind = k.Name()
-						}
-					}
+		if inner.kind == "" && inner.kindExpr != nil {
+			if a, ok := bind(inner.kindExpr); ok {
+				if k, ok := li.info.Uses[identOf(a)].(*types.Const); ok {
+					tp.kind, tp.kindExpr = k.Name(), nil
+				} else {
+					tp.kindExpr = a
 				}
 			}
 		}
 		if a, ok := bind(inner.pos); ok {
 			tp.pos, tp.posNow = a, false
+			if call, ok := ast.Unparen(a).(*ast.CallExpr); ok {
+				if m, ok := li.lexerMethodCall(call); ok && li.positionFns[m] {
+					tp.pos, tp.posNow = nil, true // constructed at the position where the (outer) constructor is called
+				}
+			}
 		} else if !inner.posNow {
 			// a local of the constructor: the position when the constructor runs
 			tp.pos, tp.posNow = nil, li.localFromPosition(fd, inner.pos)
@@ -2012,6 +2260,59 @@ func (li *lexInterp) tokenParts(r ast.Expr, depth int) (tokenPartsT, bool) {
 		return tp, true
 	}
 	return tp, false
+}
+
+// sliceHelperStart: call is `l.h(x)` where h is a pure method whose body is `return l.input[p(.Offset):l.pos]`
+// (possibly trimmed) with p one of its parameters; returns the caller's variable passed for p.
+func (li *lexInterp) sliceHelperStart(call *ast.CallExpr) types.Object {
+	m, ok := li.lexerMethodCall(call)
+	if !ok {
+		return nil
+	}
+	fd := li.methods[m]
+	if fd == nil || !li.isPure(fd, 0) || len(fd.Body.List) != 1 || fd.Type.Params == nil {
+		return nil
+	}
+	r, ok := fd.Body.List[0].(*ast.ReturnStmt)
+	if !ok || len(r.Results) != 1 {
+		return nil
+	}
+	v := ast.Unparen(r.Results[0])
+	if c2, ok := v.(*ast.CallExpr); ok && len(c2.Args) >= 1 && strings.HasPrefix(qualName(calleeOf(li.info, c2)), "strings.Trim") {
+		v = ast.Unparen(c2.Args[0])
+	}
+	sl, ok := v.(*ast.SliceExpr)
+	if !ok || !li.isLexerField(sl.X, "input") || sl.Low == nil || !li.isLexerField(sl.High, "pos") {
+		return nil
+	}
+	low := ast.Unparen(sl.Low)
+	if se, ok := low.(*ast.SelectorExpr); ok && se.Sel.Name == "Offset" {
+		low = ast.Unparen(se.X)
+	}
+	po := li.info.Uses[identOf(low)]
+	i := 0
+	for _, fl := range fd.Type.Params.List {
+		for _, nm := range fl.Names {
+			if li.info.Defs[nm] == po && po != nil && i < len(call.Args) {
+				return li.info.Uses[identOf(call.Args[i])]
+			}
+			i++
+		}
+	}
+	return nil
+}
+
+// tokenKindName: the name of the TokenType constant with the given value.
+func (li *lexInterp) tokenKindName(v int64) string {
+	sc := li.pk.Types.Scope()
+	for _, n := range sc.Names() {
+		if k, ok := sc.Lookup(n).(*types.Const); ok && typeHasSuffix(k.Type(), "parser.TokenType") {
+			if kv, ok := constant.Int64Val(constant.ToInt(k.Val())); ok && kv == v {
+				return n
+			}
+		}
+	}
+	return ""
 }
 
 // localFromPosition: e is a local of fd defined once as a call of a position method.
@@ -2106,8 +2407,13 @@ func (li *lexInterp) checkPos(s *ast.ReturnStmt, st *lexState, fr *lexFrame, tp 
 				li.dropKinds[tp.kind] = true
 			}
 		} else {
-			// Value: l.input[start:l.pos] (possibly trimmed) written in place
+			// Value: l.input[start:l.pos] (possibly trimmed) written in place, or a slice helper applied to a snapshot
 			v := ast.Unparen(tp.value)
+			if call, ok := v.(*ast.CallExpr); ok {
+				if so := li.sliceHelperStart(call); so != nil && st.lead[so] {
+					li.dropKinds[tp.kind] = true
+				}
+			}
 			if call, ok := v.(*ast.CallExpr); ok && len(call.Args) >= 1 && strings.HasPrefix(qualName(calleeOf(li.info, call)), "strings.Trim") {
 				v = ast.Unparen(call.Args[0])
 			}
